@@ -19,7 +19,7 @@ CHECKS = {
         design="5/C04"),
     "C05": dict(
         technique="exhaustive enumeration of short byte strings over a class-representative alphabet x all buffer sizes/capacities, plus proptest-generated streams; crash/hang/suffix oracles",
-        text="Every byte string up to the length bound over an 19-symbol alphabet is run through run (65 capacities) and process (71 buffer sizes x 4 read sizes); longer streams are generated. Oracles: no panic, run returns a suffix, process ends only with the transport's EOF error having consumed everything, never reads into an empty slice, oversized responses are reported. Hangs are caught by a watchdog and confirmed by re-running the saved input in a fresh process.",
+        text="Every byte string up to the length bound over an 19-symbol alphabet is run through run (65 capacities) and process (71 buffer sizes x 4 read sizes); longer streams are generated. Oracles: no panic, run returns a suffix, process ends only with the transport's EOF error having consumed everything, never reads into an empty slice, oversized responses are reported; queries of every response type returning generated values (extreme floats whose decimal text has hundreds of characters, long strings and blocks, composites) are run into response buffers of 0..4096 bytes (c05.values: no panic, and silence only together with the exact responses). Hangs are caught by a watchdog and confirmed by re-running the saved input in a fresh process.",
         note="Absence of panics is only shown for what was explored; handlers of the fixture do not panic; harness built with overflow checks and debug assertions.",
         design="5/C05"),
     "C07": dict(
@@ -34,7 +34,7 @@ CHECKS = {
         design="5/C08"),
     "C03": dict(
         technique="property-based testing against reference literal semantics (exact integer conversion; correct rounding decided by big-integer arithmetic), classes of literals built around type bounds and rounding boundaries",
-        text="Generated parameter lists for every parameter type and several signatures are sent through the real parser and dispatcher; the recorded handler arguments must equal the literals written exactly (floats: the correctly rounded value, decided by exact arithmetic independent of the standard library), or the handler must not run and exactly one error with an allowed number must be reported. TryInto<T> for &Value is also exercised directly.",
+        text="Generated parameter lists for every parameter type and several signatures are sent through the real parser and dispatcher; the recorded handler arguments must equal the literals written exactly (floats: the correctly rounded value, decided by exact arithmetic independent of the standard library), or the handler must not run and exactly one error with an allowed number must be reported. TryInto<T> for &Value is also exercised directly. String and block parameters contain newlines wherever the message has no parser-level fault.",
         note="Where the statement leaves both rejection and exact delivery open (1.0 into an integer, float overflow, TRUE/FALSE ...) either is accepted, never a different value. Trusts bignum.rs/lits.rs.",
         design="5/C03"),
     "C06": dict(
@@ -54,8 +54,8 @@ CHECKS = {
         design="5/C10"),
     "C11": dict(
         technique="metamorphic property testing (base message vs lexical variants), exhaustive over all 32 white-space byte values per slot kind",
-        text="Base messages (valid and with execution-type faults) are compared with variants that change case, exchange short/long forms, insert white space of every permitted byte value in every permitted slot, and use CR LF; handlers, arguments, responses and errors must be identical through run and process.",
-        note="White space is varied only at the positions the statement lists.",
+        text="Base messages (valid and with execution-type faults) are compared with variants that change case, exchange short/long forms, insert white space of every permitted byte value in every permitted slot, and use CR LF; handlers, arguments, responses and errors must be identical through run and process. The same property runs over the generated declaration sets of the C01 pipeline (c11.generated: mnemonics declared only in short form next to the same node spelled in full, non-prefix short forms, digits, underscores).",
+        note="White space is varied only at the positions the statement lists. A variant is discarded when the reference dictionary itself resolves it differently (an exchanged form that is the short form of two sibling nodes at once).",
         design="5/C11"),
     "C12": dict(
         technique="exhaustive enumeration of parser inputs x continuations over a class-representative alphabet, plus proptest-generated units with prefixes and tails; prefix/extension relations as oracle",
@@ -66,7 +66,7 @@ CHECKS = {
 
 CHECKS["C13"] = dict(
     technique="property-based testing with a counting global allocator as oracle (generated inputs through run/process with fixed-capacity buffers), plus a fixed build probe (#![no_std] staticlib without allocator)",
-    text="Generated streams (valid, faulty, garbage, chunked) are executed against a no-alloc fixture with microscpi built with default features; a counting #[global_allocator] must see 0 allocations inside run/process. The static half builds microscpi into a #![no_std] static library that has a panic handler and no global allocator.",
+    text="Generated streams (valid, faulty, garbage, chunked) are executed against a no-alloc fixture with microscpi built with default features; a counting #[global_allocator] must see 0 allocations inside run/process. The fixture includes handlers with a user-defined parameter and response type (keyword enum with its own TryFrom<&Value> / Response), application error types, generic interface types and non-handler items. The static half builds microscpi into a #![no_std] static library that has a panic handler and no global allocator.",
     note="Dynamic half covers the paths exercised; static half covers every instantiated path of this fixture (host target only - no bare-metal target is installed). String responses (std) are excluded.",
     design="5/C13")
 
@@ -81,9 +81,10 @@ CHECKS["C12"]["engine"] = "proptest-harness + generated-program-pipeline + libFu
 CHECKS["C05"]["engine"] = "proptest-harness + libFuzzer (thorough)"
 CHECKS["C07"]["engine"] = "proptest-harness + libFuzzer (thorough)"
 CHECKS["C06"]["engine"] = "proptest-harness + generated-program-pipeline"
+CHECKS["C11"]["engine"] = "proptest-harness + generated-program-pipeline"
 CHECKS["C14"] = dict(
     technique="property-based testing over generated programs: ambiguous declaration sets must fail to compile (cargo check diagnostics mapped to each set), their minimally de-collided twins must compile and reach every handler (reference dictionary as oracle)",
-    text="A seeded generator builds collision-free sets plus one colliding pair of nine kinds (identical, short/long induced, optional-node induced, standard command redeclared, query variants). All ambiguous sets go into one crate: cargo check must report the macro's rejection in the module of every set. The twins are compiled and every declared spelling must reach exactly its own handler (nothing shadowed).",
+    text="A seeded generator builds collision-free sets plus one colliding pair of fourteen kinds (identical, short/long induced, optional-node induced, standard command redeclared, query variants, letter case changed, common commands in another letter case). All ambiguous sets go into one crate: cargo check must report the macro's rejection in the module of every set. The twins are compiled and every declared spelling must reach exactly its own handler (nothing shadowed).",
     note="Which sets are ambiguous is decided by the harness's reference dictionary. The compiler is the executor of the generated case.",
     design="5/C14", engine="generated-program-pipeline")
 
@@ -118,7 +119,7 @@ def main():
             "add_only": True,
         },
         "engines": [
-            {"name": "generated-program-pipeline", "path": "/verif/harness/gen", "serves_properties": ["C01", "C02", "C03", "C06", "C12", "C14"],
+            {"name": "generated-program-pipeline", "path": "/verif/harness/gen", "serves_properties": ["C01", "C02", "C03", "C06", "C11", "C12", "C14"],
              "kind_free_text": "vcore::treegen generates declaration sets from the seed; gen/build.rs and genamb/build.rs emit them as Rust modules using the real #[microscpi::interface] macro; cargo compiles them (genamb is expected to fail, its diagnostics are mapped back to each generated set); a driver linked into the same crate attacks every generated interface"},
             {"name": "libfuzzer-targets", "path": "/verif/harness/fuzz", "serves_properties": ["C05", "C07", "C12"],
              "kind_free_text": "cargo-fuzz crate (fz_stream, fz_parse) whose targets call fixture::fuzzing::{stream_case_for, parse_case}: the semantic oracles are inside the target; run by ./check in the thorough tier (12 jobs, -runs bounded, built without sanitizer: the library has no unsafe code), findings are written as replay files by the target itself and re-executed by the *.fuzz_replay sub-checks"},
